@@ -39,6 +39,14 @@ INNER = {'nest': 'nestx', 'nestx': 'nest', 'dm': 'dmx', 'dmx': 'dm'}
 SIG = {'nestx': '(E)D5M', 'dmx': '(E)MD3', 'osc': 'E', 'lp': 'E', 'mem': 'M', 'mem2': 'MMM', 'echo': 'D4', 'echo3': 'D3', 'dm': 'MD3', 'nest': '(E)M'}
 
 
+# a voice nested one call deeper ("nest a voice deeper"): same call sites, one FnCall level more
+for _k in ('osc', 'lp', 'mem', 'mem2', 'echo', 'echo3', 'dm'):
+    _d, _c = VOICES[_k]
+    _fn = _c.split('{k}')[0]
+    VOICES['w_' + _k] = (_d + 'fn w_%s{k}(x:float){{\n  %s{k}(x)\n}}\n' % (_fn[2:], _fn), 'w_%s{k}(a)' % _fn[2:])
+    SIG['w_' + _k] = '(' + SIG[_k] + ')'
+
+
 def unambiguous(vs, op, pos, arg):
     """the edit must not involve a voice whose state shape equals that of another voice of the program: identically shaped
     siblings may legitimately exchange their state (C08), which would make 'untouched' ambiguous"""
@@ -53,6 +61,8 @@ def unambiguous(vs, op, pos, arg):
         return SIG[arg[0]] not in sigs
     if op == 'insert':
         return SIG[arg[0]] not in sigs
+    if op == 'nest':
+        return vs[pos][0] in ('osc', 'lp', 'mem', 'mem2', 'echo', 'echo3', 'dm') and ('(' + SIG[vs[pos][0]] + ')') not in sigs
     if op == 'multi':
         cur = list(vs)
         for (o, p_, a) in arg:
@@ -118,9 +128,24 @@ def scripts(rng, n):
         ([('echo', 1, '0.5'), ('nestx', 2, '1.0')], 'multi', 0, [('insert', 0, ('mem2', 3, '2.0')), ('inner', 2, None)]),
         ([('mem2', 1, '0.5'), ('dm', 2, '1.0')], 'multi', 0, [('inner', 1, None)]),
     ]
+    fixed += [
+        # replacements at the LAST / a MIDDLE position by a differently shaped voice of equal, larger and smaller size (the new voice
+        # must start from zero whatever stood at its address), deletions at both ends, an appended voice, voices nested one call deeper
+        ([('echo3', 1, '0.5'), ('osc', 2, '1.0')], 'replace', 1, ('mem', 3, '2.0')),       # E -> M, same size
+        ([('osc', 1, '0.5'), ('echo', 2, '1.0')], 'replace', 1, ('dm', 3, '0.5')),           # D4 -> M D3, same size (6 words)
+        ([('osc', 1, '0.5'), ('echo', 2, '1.0'), ('mem2', 3, '1.0')], 'replace', 1, ('dm', 4, '0.5')),
+        ([('osc', 1, '0.5'), ('echo3', 2, '1.0')], 'replace', 1, ('mem2', 3, '0.5')),        # smaller
+        ([('osc', 1, '0.5'), ('mem', 2, '1.0')], 'replace', 1, ('echo', 3, '0.5')),          # larger
+        ([('osc', 1, '0.5'), ('mem', 2, '1.0'), ('echo', 3, '1.0')], 'delete', 2, None),
+        ([('osc', 1, '0.5'), ('mem', 2, '1.0'), ('echo', 3, '1.0')], 'delete', 0, None),
+        ([('mem2', 1, '0.5'), ('echo', 2, '1.0')], 'nest', 1, None),
+        ([('mem2', 1, '0.5'), ('echo', 2, '1.0')], 'nest', 0, None),
+        ([('osc', 1, '0.5'), ('dm', 2, '1.0'), ('mem2', 3, '1.0')], 'nest', 1, None),
+    ]
     for f in fixed:
+        assert f[1] == 'multi' or f[3] is None or isinstance(f[3], str) or unambiguous(*f) or f in fixed[:10], f
         out.append(f)
-    kinds = [k for k in kinds if k not in ('nestx', 'dmx')]
+    kinds = [k for k in kinds if k not in ('nestx', 'dmx') and not k.startswith('w_')]
     while len(out) < n:
         m = rng.randint(2, 3)
         vs = [(rng.choice(kinds), i + 1, rng.choice(['0.5', '0.25', '2.0'])) for i in range(m)]
@@ -142,7 +167,7 @@ def scripts(rng, n):
                 if unambiguous(vs, 'multi', 0, edits):
                     out.append((vs, 'multi', 0, edits))
                 continue
-        op = rng.choice(['insert', 'insert', 'delete', 'replace', 'const'])
+        op = rng.choice(['insert', 'insert', 'delete', 'replace', 'replace', 'const', 'nest'])
         pos = rng.randint(0, m if op == 'insert' else m - 1)
         arg = None
         if op in ('insert', 'replace'):
@@ -192,6 +217,11 @@ def apply_script(vs, op, pos, arg):
         nv = vs[:pos] + [arg] + vs[pos + 1:]
         kept = [(i, i) for i in range(len(vs)) if i != pos]
         return nv, kept, [pos]
+    if op == 'nest':
+        k, i, c = vs[pos]
+        nv = vs[:pos] + [('w_' + k, i, c)] + vs[pos + 1:]
+        # the nested voice itself is not judged (its path changed); its siblings are untouched
+        return nv, [(i_, i_) for i_ in range(len(vs)) if i_ != pos], []
     if op == 'const':
         k, i, c = vs[pos]
         nv = vs[:pos] + [(k, i, arg)] + vs[pos + 1:]
@@ -205,9 +235,9 @@ def run(tier, seed):
     quick = tier == 'quick'
     rep = Report(PID, tier, seed, 'model_checking')
     common.build_mmdump()
-    mirs = [common.dump_mir('mimium_lang')[0], common.dump_mir('state_tree')[0]]
+    mirs = common.prog_mirs(('mimium_cli',))
     rng = random.Random(seed)
-    scr = scripts(rng, 24 if quick else 120)
+    scr = scripts(rng, 36 if quick else 140)
     gdir = os.path.join(common.CACHE, 'c07')
     os.makedirs(gdir, exist_ok=True)
     jobs, meta = [], []
@@ -221,13 +251,15 @@ def run(tier, seed):
         open(po, 'w').write(render(vs))
         open(pn, 'w').write(render(nv))
         # state-only check for the voice whose constant changed (its output legitimately changes)
-        jobs.append(('analysis', dict(cls=('checks.c06', 'SwapAnalysis'), path=po, new_path=pn, voices_kept=kept, voices_new=newv, voices_inner=inner, mir_paths=mirs,
-                                      steps=1, mode='inductive', query_timeout_ms=qto, time_budget_s=budget, seed=seed)))
-        meta.append(dict(old=[v[0] for v in vs], edit=op, pos=pos, arg=(arg[0] if isinstance(arg, tuple) else ('+'.join('%s@%d' % (e[0], e[1]) for e in arg) if isinstance(arg, list) else arg)), kept=kept, inner=inner, new=newv, old_path=po, new_path=pn))
+        for (be, var) in c06.BACKENDS:
+            jobs.append(('analysis', dict(cls=('checks.c06', 'SwapAnalysis'), path=po, new_path=pn, voices_kept=kept, voices_new=newv, voices_inner=inner, mir_paths=mirs,
+                                          backend=be, variant=var, steps=1, mode='inductive', query_timeout_ms=qto, time_budget_s=budget, seed=seed)))
+            meta.append(dict(old=[v[0] for v in vs], edit=op, pos=pos, arg=(arg[0] if isinstance(arg, tuple) else ('+'.join('%s@%d' % (e[0], e[1]) for e in arg) if isinstance(arg, list) else arg)), kept=kept, inner=inner, new=newv, old_path=po, new_path=pn,
+                             backend=be, variant=var))
     res = run_jobs(jobs)
     npaths = nchecks = 0
     for r, m in zip(res, meta):
-        tagname = '%s %s@%d %s' % ('+'.join(m['old']), m['edit'], m['pos'], m['arg'] or '')
+        tagname = '%s %s@%d %s%s' % ('+'.join(m['old']), m['edit'], m['pos'], m['arg'] or '', '' if m['backend'] == 'vm' else ' [wasm/%s]' % m['variant'])
         r['program'] = tagname
         if not rep.absorb(r):
             if r.get('status') in ('rejected', 'no_dsp_io'):
@@ -243,7 +275,7 @@ def run(tier, seed):
                 rep.inconclusive.append('%s: path ended by a crash obligation (%s)' % (tagname, d['msg'][:70]))
                 continue
             rep.replays += 1
-            ok, detail = c06.confirm_swap(m['old_path'], m['new_path'], d, m['kept'], m['new'], None)
+            ok, detail = c06.confirm_swap(m['old_path'], m['new_path'], d, m['kept'], m['new'], None, backend=m['backend'], variant=m['variant'])
             if not ok and 'lost state word' in d['msg'] or 'does not start from zero' in d['msg']:
                 # state-level witness: compare the real VM's state right after the swap
                 ok2, det2 = confirm_state(m, d)
@@ -260,15 +292,26 @@ def run(tier, seed):
             rep.samples.append(dict(edit=tagname, kept=m['kept'], new=m['new'], feasible_paths=r['paths'], equalities_checked=r.get('checks')))
     cov = dict(states=max(1, npaths), transitions=max(1, rep.stats['queries']), traces_validated_against_impl=rep.replays, edit_pairs=len(scr),
                equalities_checked=nchecks, voice_kinds=sorted(VOICES),
+               routes=[list(b) for b in c06.BACKENDS],
                bounds='%d scripted edits (insert / delete / replace a voice at any position, change a constant, near-copy insertions, and compound edits: a sibling inserted / deleted in front of an untouched voice plus a later voice edited inside) over programs of 2-3 voices drawn from %d voice kinds; '
-                      'pre-swap state fully symbolic; one post-swap sample with symbolic input; VM path + state-tree plan layer' % (len(scr), len(VOICES)))
+                      'pre-swap state fully symbolic; one post-swap sample with symbolic input; every edit through three routes: VmDspRuntime::try_hot_swap, and WasmDspRuntime::try_hot_swap with the payload of '
+                      'FileRunner::prepare_hot_swap_wasm_payload as the native CLI calls it (bytes only) and as recompile_file_inprocess calls it (with skeleton)' % (len(scr), len(VOICES)))
     assumptions = ['"an edit that fails to compile leaves the running program unchanged" is control flow of the CLI recompile thread (channels / threads): not encoded',
-                   'Machine::link_functions stubbed; WASM engine swap not encoded (its state hand-over uses the same state-tree plan, decided in C08)',
+                   'Machine::link_functions stubbed; WASM: WasmEngine::new / load_module and the WasmModule surface are served by wasmsym (see C06); replay of WASM witnesses uses a replica of prepare_hot_swap_wasm_payload in mmdump with the real try_hot_swap',
                    'edit scripts define which voices count as untouched']
     return rep.finish(cov, assumptions)
 
 
 def classify(m, d):
+    if m.get('backend') == 'wasm' and m.get('variant') == 'subprocess' and d.get('swap_verbatim'):
+        # one cause, many edits: the native CLI compiles the WASM backend in a subprocess that returns bytes only, so no state skeleton
+        # reaches prepare_hot_swap_wasm_payload / try_hot_swap and the old state vector is copied verbatim whatever the edit was
+        return 'wasm-subprocess:no-skeleton-verbatim-copy'
+    if m.get('backend') == 'wasm' and 'differs from the uninterrupted run' in d['msg'] and d.get('n_out') and d['n_out'][0] != d['n_out'][1]:
+        # the state hand-over was right (those obligations come first on the path); the runtime still reads outputs with the OLD channel count
+        return 'wasm:stale-io-channels-after-swap'
+    if m.get('backend') == 'wasm':
+        return 'wasm-%s:%s:%s@%d' % (m.get('variant'), d['msg'][:40], m['edit'], m['pos'])
     if 'lost state word' in d['msg'] or 'differs from the uninterrupted run' in d['msg']:
         if m['edit'] in ('insert', 'delete', 'replace') and not m.get('inner'):
             return 'untouched-voice-lost:patch-count-score-prefers-partial-match'
@@ -295,9 +338,10 @@ def confirm_state(m, d):
     their new address, inserted voices must be zero."""
     init = d.get('init_state')
     row = (d.get('inputs') or [[]])[0]
-    base = dict(src_path=m['old_path'], backend='vm', steps=1, inputs=[row], init_state=init, now_start=d.get('now0', 0), timeout_s=20)
+    be = m.get('backend', 'vm')
+    base = dict(src_path=m['old_path'], backend=be, steps=1, inputs=[row], init_state=init, now_start=d.get('now0', 0), timeout_s=20)
     try:
-        swapped = common.replay(dict(base, swaps=[dict(at_step=0, src_path=m['new_path'])]))['vm']
+        swapped = common.replay(dict(base, swaps=[dict(at_step=0, src_path=m['new_path'], variant=m.get('variant') or 'inprocess')]))[be]
         co = common.compile_program(m['old_path'])['bytecode']['program']
         cn = common.compile_program(m['new_path'])['bytecode']['program']
     except Exception as e:
@@ -317,6 +361,7 @@ def confirm_state(m, d):
     ss = sw.get('state_after_swap')
     if ss is None or init is None:
         return False, dict(swap=sw, note='no post-swap state available')
+    ss = ss + [0] * max(0, skel_total(skn) - len(ss))       # the WASM state vector grows lazily from zero
     for (oi, ni) in m['kept']:
         (ao, so), (an_, sn) = ro[oi], rn[ni]
         if init[ao:ao + so] != ss[an_:an_ + sn]:
